@@ -1055,7 +1055,7 @@ fn samples(a: &Acc, s: Option<&Row>) -> Vec<String> {
         "MultiArch" => ["same", "foreign", "no", "allowed"].iter().map(|t| x(t)).collect(),
         "Relations" => vec![x("foo"), x("foo (>= 1.0), bar | baz"), x("libc6 (>= 2.3) [amd64], x <!nocheck>")],
         "Version" => vec![x("1.0-1"), x("2:1.0~rc1-1ubuntu1")],
-        "Url" => vec![x("https://example.com/"), x("https://example.com/a/b?c=d")],
+        "Url" => vec![x("https://example.com/"), x("https://example.com/a/b?c=d"), x("https://example.com/projects/foo/")],
         "Vec<String>" => match sep {
             "comma" | "" => vec![l(&["Jo Doe <jo@x.org>"]), l(&["Jo Doe <jo@x.org>", "Al B <al@y.org>"]), l(&["a", "b", "c"])],
             "nl" => vec![l(&["2019 John Doe"]), l(&["a b", "c/*", "d"])],
